@@ -796,7 +796,7 @@ const WORDS: [&str; 10] = [
     "kilogarm", "metre5", "feets", "asdfqwer", "secnod", "speed", "foot", "energy", "gold", "USD",
 ];
 
-fn gen_query(rng: &mut Rng, i: usize, weights: &[u64; 13]) -> String {
+fn gen_query(rng: &mut Rng, i: usize, weights: &[u64; 14]) -> String {
     let n = uniq(rng, i);
     let m = 2 + rng.below(17);
     match rng.weighted(weights) {
@@ -910,6 +910,35 @@ fn gen_query(rng: &mut Rng, i: usize, weights: &[u64; 13]) -> String {
                 format!("ans * ({})", q)
             }
         }
+        // derived SI units: results whose display unit is a choice among equals,
+        // and conversions to a bare derived unit of the same dimension
+        13 => {
+            let k = 2 + rng.below(40);
+            match rng.below(22) {
+                0 => format!("{} V / {} A", k, m),
+                1 => format!("{} A / {} V", k, m),
+                2 => format!("{} J / {} s", k, m),
+                3 => format!("{} V * {} A", k, m),
+                4 => format!("{} N * {} m", k, m),
+                5 => format!("{} tesla m", k),
+                6 => "kg joule / s".to_string(),
+                7 => format!("{} weber / m^2", k),
+                8 => format!("{} C / {} V", k, m),
+                9 => format!("{} N / m^2", k),
+                10 => "1/ohm".to_string(),
+                11 => format!("{} W s", k),
+                12 => format!("{} V / {} A -> ohm", k, m),
+                13 => "1/ohm -> siemens".to_string(),
+                14 => format!("{} A / {} V -> siemens", k, m),
+                15 => format!("{} J / {} s -> watt", k, m),
+                16 => format!("{} N -> newton", k),
+                17 => format!("{} kg m / s^2 -> newton", k),
+                18 => format!("{} N / m^2 -> pascal", k),
+                19 => format!("{} C / {} V -> farad", k, m),
+                20 => format!("{} weber / {} A -> henry", k, m),
+                _ => format!("{} W s -> joule", k),
+            }
+        }
         // one shared identifier through different kinds of query
         _ => {
             let w = *rng.pick(&WORDS);
@@ -956,7 +985,7 @@ impl Harness for C15 {
     }
 
     fn generate(&self, rng: &mut Rng, tier: Tier, _index: u64) -> Scenario {
-        let mut weights = [5u64, 5, 3, 2, 1, 1, 2, 2, 3, 1, 4, 4, 2];
+        let mut weights = [5u64, 5, 3, 2, 1, 1, 2, 2, 3, 1, 4, 4, 2, 3];
         for w in weights.iter_mut() {
             if rng.chance(1, 5) {
                 *w = 0;
@@ -1279,7 +1308,7 @@ pub fn timing() {
         println!("{:?}: Display = {:?}; serde_json = {}", q, text, if json.is_ok() { "ok" } else { "PANICS" });
     }
     let mut rng = Rng::new(1);
-    let w = [1u64; 13];
+    let w = [1u64; 14];
     let mut worst: Vec<(u128, String)> = Vec::new();
     for i in 0..3000 {
         let q = gen_query(&mut rng, i % 16, &w);
